@@ -644,7 +644,7 @@ class err_gs(err_node):
         self.isa_id = src.get_isa_id()
         self.cur_line_gs = src.get_cur_line()
         self.cur_line_ge = None
-        self.gs_control_num = src.get_gs_id()
+        self.gs_control_num = seg_data.get_value('GS06')
         self.fic = self.seg_data.get_value('GS01')
         self.vriic = self.seg_data.get_value('GS08')
         self.id = 'GS'
@@ -790,7 +790,7 @@ class err_st(err_node):
         @type src: L{X12file<x12file.X12Reader>}
         """
         self.seg_data = seg_data
-        self.trn_set_control_num = src.get_st_id()
+        self.trn_set_control_num = seg_data.get_value('ST02')
         self.cur_line_st = src.get_cur_line()
         self.cur_line_se = None
         self.trn_set_id = seg_data.get_value('ST01')
